@@ -54,6 +54,54 @@ func (r *engRun) addSource(pkg string) int {
 	return id
 }
 
+// a source directory: the model sees its whole state (names and contents) as one literal, interned per state
+func (r *engRun) addSourceDir(pkg string) int {
+	p := r.p
+	id := 1000 + len(p.Sources)
+	path := p.newPath(pkgJoin(pkg, fmt.Sprintf("d%d", id)))
+	p.Sources[id] = &engSource{ID: id, Path: path, Dir: map[string]int{}}
+	os.MkdirAll(filepath.Join(r.root, p.Paths[path]), 0755)
+	for i := 0; i < 2; i++ {
+		r.dirPut(p.Sources[id], fmt.Sprintf("f%d.c", i))
+	}
+	return id
+}
+
+func (r *engRun) dirPut(s *engSource, name string) {
+	lit := r.p.nextLit
+	r.p.nextLit++
+	s.Dir[name] = lit
+	os.WriteFile(filepath.Join(r.root, r.p.Paths[s.Path], name), []byte(fmt.Sprintf("lit-%d\n", lit)), 0644)
+}
+
+// dirState returns the literal id that stands for the directory's present state (equal states, equal ids)
+func (r *engRun) dirState(s *engSource) int {
+	var names []string
+	for n := range s.Dir {
+		names = append(names, n)
+	}
+	sort.Strings(names)
+	key := ""
+	for _, n := range names {
+		key += fmt.Sprintf("%s=%d;", n, s.Dir[n])
+	}
+	if r.dirStates == nil {
+		r.dirStates = map[string]int{}
+	}
+	if id, ok := r.dirStates[key]; ok {
+		return id
+	}
+	id := 1000000 + len(r.dirStates)
+	r.dirStates[key] = id
+	return id
+}
+
+func (r *engRun) emitDir(s *engSource, note string) {
+	lit := r.dirState(s)
+	r.litOf[s.Path] = lit
+	r.emitFile(s.Path, lit, note)
+}
+
 func (r *engRun) writeLit(path int) int {
 	lit := r.p.nextLit
 	r.p.nextLit++
@@ -98,6 +146,11 @@ func (r *engRun) addTarget() *engTarget {
 	if len(t.Srcs) == 0 && rng.Intn(2) == 0 {
 		s := r.addSource(pkg)
 		r.writeLit(p.Sources[s].Path)
+		t.Srcs = append(t.Srcs, s)
+	}
+	if rng.Intn(5) == 0 {
+		s := r.addSourceDir(pkg)
+		r.litOf[p.Sources[s].Path] = r.dirState(p.Sources[s])
 		t.Srcs = append(t.Srcs, s)
 	}
 	// a generated file of an earlier target consumed as a declared source
